@@ -141,6 +141,7 @@ func Run(r *core.Run, opt Options, body func(w *World)) (w *World) {
 			}
 			if opt.Cooperative {
 				w.FS.Sched = w.Sched
+				w.FS.YieldAfterRead = true
 			}
 			if dbg := os.Getenv("VERIF_DEBUG_STEPS"); dbg != "" {
 				f, _ := os.OpenFile(dbg, os.O_CREATE|os.O_APPEND|os.O_WRONLY, 0o644)
